@@ -98,6 +98,37 @@ example : lex rustTables [Char.ofNat 0x20ac, '1', ' '] = .err .syntax :=
   C13_rejects_foreign_head rustTables _ _ (by unfold CanStart isIdentifierChar rustTables; decide +kernel)
 example : summary (lex rustTables ['1', ' ', Char.ofNat 0x20ac]) = none := by decide +kernel
 
+/-- 4d (global form). In a successful lex, a character that cannot start or continue any token
+(`CanStartOrContinue`: alphanumeric, numeric, ASCII whitespace, one of ``_ : . ` @ " '``, or a character of an
+operator spelling) never appears outside a char list, a byte list or a line annotation (Annotation tokens `@word`
+are NOT exempt: they contain only `@`, alphanumerics and `_`). Together with `C13_lossless` (nothing is dropped):
+every such character of the input lies inside a literal or a comment line. -/
+theorem C13_no_foreign_outside_literals (cc : CharClass) (hcc : cc.Sane2) (s : List Char) (toks : List LexerToken)
+    (h : lex cc s = .ok toks) (t : LexerToken) (ht : t ∈ toks)
+    (hlit : t.tokenType ≠ .charList ∧ t.tokenType ≠ .byteList ∧ t.tokenType ≠ .lineAnnotation) :
+    ∀ c ∈ t.text, CanStartOrContinue cc c := by
+  apply ((lex_final2 cc hcc s toks h).toksOk t ht).chars
+  simp [isLitType, hlit.1, hlit.2.1, hlit.2.2]
+
+/-- corollary: an input without quotes and without `@` that contains a character that can neither start nor continue
+a token is rejected -/
+theorem C13_rejects_foreign_anywhere (cc : CharClass) (hcc : cc.Sane2) (s : List Char) (c : Char) (hc : c ∈ s)
+    (hforeign : ¬CanStartOrContinue cc c) (toks : List LexerToken) (h : lex cc s = .ok toks) :
+    ∃ t ∈ toks, c ∈ t.text ∧
+      (t.tokenType = .charList ∨ t.tokenType = .byteList ∨ t.tokenType = .lineAnnotation) := by
+  have hl := C13_lossless cc hcc s toks h
+  rw [← hl] at hc
+  simp only [List.mem_flatten, List.mem_map] at hc
+  obtain ⟨l, ⟨t, ht, rfl⟩, hcl⟩ := hc
+  refine ⟨t, ht, hcl, ?_⟩
+  by_cases h1 : t.tokenType = .charList
+  · exact Or.inl h1
+  · by_cases h2 : t.tokenType = .byteList
+    · exact Or.inr (Or.inl h2)
+    · by_cases h3 : t.tokenType = .lineAnnotation
+      · exact Or.inr (Or.inr h3)
+      · exact absurd (C13_no_foreign_outside_literals cc hcc s toks h t ht ⟨h1, h2, h3⟩ c hcl) hforeign
+
 /-! ### 5. a blank line separates sub-expressions, with or without trailing spaces/tabs -/
 
 /-- 5 (general form). `a` is any string after which whitespace starts a fresh whitespace token (`Boundary`: the
@@ -154,16 +185,45 @@ example : summary (lex rustTables ['a', 'b', ' ', '\t', '\n', ' ', '\n', 'c', 'd
 
 /-! ### 6. operators are classified by longest match against the token table -/
 
-/-- 6, full statement (NOT proved as a whole, see below): every token whose type is an operator type of the
-regenerated table carries a spelling of the table with that type, and no longer spelling of the table is a prefix of
-the input from the token's start -/
-def C13_longest_match_statement : Prop :=
-  ∀ (cc : CharClass) (s : List Char) (toks : List LexerToken), cc.Sane2 → lex cc s = .ok toks →
-    ∀ (i : Nat) (hi : i < toks.length),
-      (∃ sp, (sp, toks[i].tokenType) ∈ Gen.LexTables.operatorChars) →
-      (toks[i].text, toks[i].tokenType) ∈ Gen.LexTables.operatorChars ∧
-      ∀ sp ty, (sp, ty) ∈ Gen.LexTables.operatorChars → toks[i].text.length < sp.length →
-        ¬ sp <+: s.drop (tokenOffset toks i)
+/-- 6. longest match. For every token of `lex cc s = .ok toks` whose type is a type of the regenerated operator
+table (`isOpType`): its text is a spelling of the table with exactly that type, and no strictly longer spelling of
+the table is a prefix of the input from the token's start.
+The documented exceptions are not exceptions to this statement, they are about which tokens exist at all:
+* `_`-prefixed identifiers and `.digit` floats (when `can_float`) yield Identifier / Number tokens, not operator
+  tokens (`armOperator` switches state), so e.g. `.5` is one Number although `.` is a spelling;
+* greedy without backtracking: see `C13_no_backtracking` — if the characters read are a path of the tree without a
+  type and the next character continues nothing, `lex` FAILS ("No token") instead of emitting a shorter spelling;
+  hence the theorem is about successful runs only. -/
+theorem C13_longest_match (cc : CharClass) (hcc : cc.Sane2) (s : List Char) (toks : List LexerToken)
+    (h : lex cc s = .ok toks) (i : Nat) (hi : i < toks.length) (hop : isOpType toks[i].tokenType = true) :
+    (toks[i].text, toks[i].tokenType) ∈ Gen.LexTables.operatorChars ∧
+    ∀ sp ty, (sp, ty) ∈ Gen.LexTables.operatorChars → toks[i].text.length < sp.length →
+      ¬ sp <+: s.drop (tokenOffset toks i) :=
+  lex_longest_match cc hcc s toks h i hi hop
+
+/-- 6, the other direction of the table: a token type is an operator type iff it occurs in the table; every other
+token type is one of the twelve lexical types -/
+theorem C13_token_types (ty : Gen.TokenType) :
+    isOpType ty = true ∨ ty ∈ [Gen.TokenType.whitespace, .subexpression, .number, .identifier, .symbol,
+      .suffixIdentifier, .prefixIdentifier, .infixIdentifier, .annotation, .lineAnnotation, .charList, .byteList,
+      .unknown] := by
+  cases ty <;> decide
+
+/-- 6, greedy without backtracking, characterised exactly (one step of the Operator state) -/
+theorem C13_no_backtracking (cc : CharClass) (σ : Lexer) (c : Char) (hs : σ.state = .operator)
+    (hty : σ.currentTokenType = none)
+    (hpath : walkOperator σ.operatorTree (σ.currentCharacters ++ [c]) = none)
+    (hident : ¬(startsWith (σ.currentCharacters ++ [c]) '_' = true ∧ isIdentifier cc (σ.currentCharacters ++ [c]) = true))
+    (hfloat : ¬(startsWith (σ.currentCharacters ++ [c]) '.' = true ∧ utf8Len (σ.currentCharacters ++ [c]) = 2 ∧
+                cc.isNumeric c = true ∧ σ.canFloat = true)) :
+    ∃ σ1, processChar cc σ c = .ok (σ1, none) ∧ σ1.result = .err :=
+  processChar_no_backtracking cc σ c hs hty hpath hident hfloat
+
+/-- the tree recognises exactly the table: soundness (completeness is `C13_longest_match_partial_table`) -/
+theorem C13_tree_sound (cs : List Char) (n : LexerOperatorNode) (ty : Gen.TokenType)
+    (h : walkOperator theTree cs = some n) (hty : n.tokenType = some ty) :
+    (cs, ty) ∈ Gen.LexTables.operatorChars :=
+  tree_sound cs n ty h hty
 
 /-- 6 (partial, table side). every spelling of the regenerated table is recognised by the operator tree of
 `Lexer::new` with exactly its token type -/
